@@ -741,6 +741,9 @@ def run(ctx):
         "only single faults; partial writes inside os.WriteFile itself cannot be injected (the write failpoint sits before it)",
         "Go map order cannot be forced: which files precede the failing one is whatever the runtime drew; the contract accepts both",
         "complete new content = bytes an unfaulted run of the same configuration wrote for that path (checked deterministic over 2 runs)",
+        "mockery is run with the go command's default -mod (GOFLAGS empty, GOWORK=off), as a user would; go.mod, go.sum, go.work and "
+        "go.work.sum are part of the frame; vendor/ is not exercised (a vendor directory switches the go command to -mod=vendor)",
+        "untidy-but-resolvable module (replace without require, missing go.sum line for a cached module): exit status left open, frame not",
     ]
     return {"level": "model_checking", "exhaustive": False}
 
